@@ -15,7 +15,7 @@ from ..common import Outcome, Violation
 from . import conn
 
 PID = "C01"
-BAD = ("leaf_table", "observables", "partition")
+BAD = ("leaf_table", "observables", "partition", "netlist_has_no_top", "netlist_top_ports", "netlist_arity", "netlist_partition")
 
 
 def term_kinds(D):
@@ -50,8 +50,11 @@ def run(tier, seed, replay_file=None):
               "sampled with the seed) x construction styles; non-trivial = classified valid or lenient by Valid!Status and a package was "
               "returned; distinct by (design, style).")
     o.trusted_base = ["harness/design.py (builder: abstract design -> API calls; projector: vlsir Package -> JSON)", "harness/universe.py (enumeration only)", "TLC"]
-    o.assumptions = ["the package is read as the vlsirtools netlisters read it: slice = bits bot..top, concat parts most-significant first",
+    o.assumptions = ["the package is read as the vlsirtools netlisters read it: slice = bits bot..top, concat parts most-significant first - checked on this run "
+                     "against the SPICE netlists the netlister actually wrote, read back by position (coverage key netlist_read_back)",
                      "a valid design that the library rejects (rejected_valid) is counted, not a C01 violation"]
+    # every 3rd (thorough: every) exported design is also netlisted in SPICE format and the text read back by position (Netlist!NetlistDiff)
+    conn.NETLIST_EVERY = 1 if (tier == "thorough" or replay_file) else 3
     if replay_file:
         rp = json.loads(Path(replay_file).read_text())
         designs = [("replay", rp["case"]["D"])]
@@ -82,6 +85,8 @@ def run(tier, seed, replay_file=None):
         o.cover[c] = o.cover.get(c, 0) + 1
         ev = evs[tid]
         o.cover["fam_" + ev["fam"]] = o.cover.get("fam_" + ev["fam"], 0) + 1
+        if "N" in ev:
+            o.cover["netlist_read_back"] = o.cover.get("netlist_read_back", 0) + 1
         if c in ("ok_valid", "ok_lenient"):
             nt += 1
             for k in term_kinds(ev["D"]):
@@ -93,7 +98,7 @@ def run(tier, seed, replay_file=None):
     o.distinct_nontrivial = nt
     o.exhaustive = tier == "thorough"
     o.required_cover = ["ok_valid", "ok_slice_of_cat", "ok_slice_of_slice", "ok_cat_of_slice", "ok_pref", "ok_nc", "ok_bund", "ok_bref", "ok_anon",
-                        "ok_kind_array", "ok_kind_pair", "ok_slice_of_pref", "ok_anon_of_bref", "ok_anon_of_pref", "ok_anon_of_anon", "fam_U_hier"]
+                        "ok_kind_array", "ok_kind_pair", "ok_slice_of_pref", "ok_anon_of_bref", "ok_anon_of_pref", "ok_anon_of_anon", "fam_U_hier", "netlist_read_back"]
     rnd = random.Random(seed)
     oks = [t for t, (ok, c) in verdicts.items() if c.startswith("ok_valid")]
     for tid in rnd.sample(oks, min(2, len(oks))):
